@@ -1,4 +1,5 @@
 """C07 - Reopening a saved document changes nothing."""
+import re
 import json
 
 from vlib import histories, snapshot, reload, reopen, gen_doc, gen_formula
@@ -292,7 +293,7 @@ class ReopenMonitor(histories.Monitor):
   def classify(self, default, S, R, reply):
     tc = getattr(self, 'type_change', None)
     if tc:
-      return known_type_change(tc, S, R) or 'load_changes_value_type:%s->%s' % (tc[3], tc[4])
+      return known_type_change(tc, S, R) or 'load_changes_value:%s->%s' % (tc[3].split(':')[0].split('[')[0], tc[4].split(':')[0].split('[')[0])
     return default
 
   def live_was_stale(self, h, S, R, fresh, reply):
@@ -300,8 +301,8 @@ class ReopenMonitor(histories.Monitor):
     hold values of the same Python types in every data cell (so formulas read the same things), and a from-scratch
     recalculation of the live data disagrees with the live state."""
     kind, d = histories.trace_kind(S, R)
-    self.type_change = first_type_change(h.proc.call('verif_py', 'props.C07_inproc', 'typed_data'),
-                                         fresh.call('verif_py', 'props.C07_inproc', 'typed_data'))
+    self.type_change = first_type_change(h.proc.call('verif_py', 'props.C07_inproc', 'value_fingerprints'),
+                                         fresh.call('verif_py', 'props.C07_inproc', 'value_fingerprints'))
     if self.type_change or kind == 'data':
       return False
     try:
@@ -375,9 +376,12 @@ def only_nan_container_updates(stored):
   return bool(stored)
 
 
+BIG_INT = re.compile(r'\bint:(-?\d{10,})')
+
+
 def known_type_change(tc, S, R):
   """Mechanism key of a listed finding that explains the type changes, or None."""
-  if tc and user_data_equal(S, R) and all(x == y.replace('UnmarshallableValue', 'int') for x, y in tc[5]):
+  if tc and user_data_equal(S, R) and all(BIG_INT.sub('UnmarshallableValue:\\1', x) == y for x, y in tc[5]):
     return 'big_int_reopens_as_unmarshallable'
   return None
 
@@ -471,7 +475,7 @@ def witness_big_int(acc):
     fresh, reply, info = reopen.reopen(p, {'timeout': 240.0})
     try:
       R = snapshot.take(fresh)
-      tc = first_type_change(p.call('verif_py', 'props.C07_inproc', 'typed_data'), fresh.call('verif_py', 'props.C07_inproc', 'typed_data'))
+      tc = first_type_change(p.call('verif_py', 'props.C07_inproc', 'value_fingerprints'), fresh.call('verif_py', 'props.C07_inproc', 'value_fingerprints'))
     finally:
       fresh.close()
     acc.count('witness_runs')
